@@ -47,7 +47,12 @@ func TestVerifC19P(t *testing.T) {
 			"waiting-for-headers/default", "mid-body/default", "waiting-for-headers/zero", "idle/default",
 			// requests that outlast the grace period on the proxy listener AND on the admin listener at
 			// the same time: the timeout bounds the shutdown as a whole
-			"stuck-on-two-listeners/three"} {
+			"stuck-on-two-listeners/three",
+			// the signal arrives when the process has been up for longer than the shutdown timeout
+			// (every other placement signals within a fraction of a second of the start)
+			"waiting-for-headers@late", "mid-body@late"} {
+			late := strings.HasSuffix(place, "@late")
+			place = strings.TrimSuffix(place, "@late")
 			shutdownLine := "    shutdown: 2\n"
 			if i := strings.Index(place, "/"); i >= 0 {
 				shutdownLine = map[string]string{"/default": "    handler: 0\n", "/zero": "    shutdown: 0\n", "/three": "    shutdown: 3\n"}[place[i:]]
@@ -93,6 +98,9 @@ func TestVerifC19P(t *testing.T) {
 			exited := make(chan error, 1)
 			go func() { exited <- cmd.Wait() }()
 			desc := fmt.Sprintf("%v while %s (%s)", sig, place, strings.TrimSpace(shutdownLine))
+			if late {
+				desc += ", the process up for 2.6 s by then"
+			}
 			if second != 0 {
 				desc += fmt.Sprintf(", then %v 150ms later", second)
 			}
@@ -116,6 +124,9 @@ func TestVerifC19P(t *testing.T) {
 				<-exited
 				be.Close()
 				t.Fatalf("binary did not come up: %s", out.String())
+			}
+			if late {
+				time.Sleep(2600 * time.Millisecond)
 			}
 			type reqRes struct {
 				resp wire.Response
@@ -212,11 +223,11 @@ func TestVerifC19P(t *testing.T) {
 			if after := be.ProbeCount(); after != before {
 				fail("probe-after-exit", fmt.Sprintf("%d probes reached the backend after the process had exited", after-before))
 			}
-			outs.Add(fmt.Sprintf("%s/%v+%v/exit=%v/%v", place, sig, second, didExit, werr == nil))
+			outs.Add(fmt.Sprintf("%s/late=%v/%v+%v/exit=%v/%v", place, late, sig, second, didExit, werr == nil))
 			be.Close()
 		}
 	}
 	r.AddScenario(vres.Scenario{Name: "signals-at-placements", Engine: "P", Evaluations: evals, Distinct: int64(outs.N()), Outcomes: outs.N(),
 		Rule:  "the real binary (shutdown timeout 2s, active probing every 2s, pool enabled) receives SIGTERM or SIGINT at each placement; exit status 0 within the timeout, in-flight request completed, no probe after exit",
-		Bound: "2 signals x (5 placements + 2 in-flight placements x 2 repeated signals + 4 placements with the shutdown timeout left to its default)", Exhaustive: true, Sample: outs.Map(), Extra: map[string]interface{}{"wall_s": time.Since(start).Seconds()}})
+		Bound: "2 signals x (5 placements + 2 in-flight placements x 2 repeated signals + 4 placements with the shutdown timeout left to its default + requests stuck on two listeners + 2 in-flight placements with the process up for longer than the shutdown timeout)", Exhaustive: true, Sample: outs.Map(), Extra: map[string]interface{}{"wall_s": time.Since(start).Seconds()}})
 }
